@@ -1176,9 +1176,31 @@ class CallMixin:
             isnat = z3.StrToInt(v.t) >= 0
             self.maybe_raise(z3.Or(isnat, ok(v.t)), "ValueError", lineno)
             return VInt(z3.If(isnat, z3.StrToInt(v.t), val(v.t)))
+        if isinstance(v, VStr) and len(args) == 2 and isinstance(args[1], (VInt, VBool)):
+            # int(s, base): which texts are valid literals of a base, and their values, are uninterpreted (the string
+            # parsing is not modelled); an invalid literal raises ValueError -- the exceptional edge IS followed
+            self.ufs_used.add("int(str, base)")
+            base = coerce(args[1], Int).t
+            ok = z3.Function("str.is_int_literal_base", z3.StringSort(), z3.IntSort(), z3.BoolSort())
+            val = z3.Function("str.int_value_base", z3.StringSort(), z3.IntSort(), z3.IntSort())
+            self.maybe_raise(ok(v.t, base), "ValueError", lineno)
+            return VInt(val(v.t, base))
         if isinstance(v, VAny):
             return coerce(v, Int)
         raise Unsupported(f"int({v})")
+
+    def bi_float(self, args, kwargs, lineno):
+        """float(s): floats are not modelled -- the result is an opaque value (nothing but passing it on is supported);
+        an invalid literal raises ValueError, and that exceptional edge is followed."""
+        v = args[0] if args else None
+        if isinstance(v, VStr) and len(args) == 1:
+            from .ty import Opaque
+            self.ufs_used.add("float(str): opaque result, ValueError on an invalid literal")
+            ok = z3.Function("str.is_float_literal", z3.StringSort(), z3.BoolSort())
+            self.maybe_raise(ok(v.t), "ValueError", lineno)
+            fty = Opaque("float")
+            return VOpaque(z3.Function("str.float_value", z3.StringSort(), fty.sort())(v.t), fty)
+        raise Unsupported(f"float({v})")
 
     def bi_abs(self, args, kwargs, lineno):
         x = coerce(args[0], Int).t
@@ -1303,6 +1325,11 @@ class CallMixin:
         if isinstance(v, VList) and v.elem is Int:
             from .ty import VSet
             return VSet(VList(Int, seq=v.term()))
+        if isinstance(v, VStr) and not v.is_bytes:
+            # set(<str>): the set of its characters, seen through an uninterpreted character list (membership only)
+            from .ty import VSet
+            self.ufs_used.add("set(str): characters as an uninterpreted list")
+            return VSet(VList(Str, seq=z3.Function("str.chars", z3.StringSort(), z3.SeqSort(z3.StringSort()))(v.t)))
         raise Unsupported("set() of symbolic value")
 
     bi_frozenset = bi_set
